@@ -3,10 +3,10 @@ declaring a huge count) generated on the fly, streamed with various chunk and re
 def gen(rng, n, tier, **kw):
     big = 4000000 if tier == "thorough" else 150000
     out = []
-    for parser in ("cnf", "btor2"):
+    for parser in ("cnf", "btor2", "btor2m"):
         for chunk, rs in ((16384, 16384), (16384, 100), (64, 7), (1, 1), (4096, 1 << 20), (3, 2)):
             for item in (20, 300, 5000):
-                lines = max(50, (big if chunk > 8 else big // 20) // item)
+                lines = max(50, (big if chunk > 8 else big // 20) // (item + 120 if parser == "btor2m" else item))
                 out.append("o_c10 %s %d %d %d %d" % (parser, lines, chunk, rs, item))
     # comment-only preambles, a direct reader user that sets the mark once, a line declaring a huge count
     for chunk, rs in ((16384, 16384), (64, 7), (1, 1), (4096, 1 << 20)):
@@ -17,7 +17,7 @@ def gen(rng, n, tier, **kw):
         out.append("o_c10 btor2j 1 %d %d 23" % (chunk, rs))
     # a source that hands out exactly one line per read (read size 0 = the line length): every refill happens on an
     # empty buffer
-    for parser in ("cnf", "btor2", "cnfc"):
+    for parser in ("cnf", "btor2", "cnfc", "btor2m"):
         for chunk in (16384, 64, 4096):
             for item in (20, 300):
                 lines = max(50, (big * 4) // item)
